@@ -3,7 +3,7 @@
 (* (inputs poked on undriven wires, outputs read after clk) are judged row by *)
 (* row against Library!CombRef.                                               *)
 (*   table = [kind, c, iw, ow, full, rows]   row = inputs \o outputs          *)
-EXTENDS Library, Json, IOUtils, TLC
+EXTENDS Library, LibraryWide, Json, IOUtils, TLC
 
 VARIABLES tid, done
 Tables == JsonDeserialize(IOEnv.TRACE_FILE)
@@ -22,6 +22,13 @@ Expected(t, row) == CombRef(t.kind, t.c, SubSeq(row, 1, Len(t.iw)), t.iw, t.ow)
 
 Constrained(t, row) == \E k \in 1..Len(t.ow) : Expected(t, row)[k] # DC
 
+\* the limb-vector references (LibraryWide, used beyond 30 bits) agree with the integer ones on this row
+SameOut(x, y, w) == IF x = WDC \/ y = WDC THEN x = y ELSE Norm(x, w) = Norm(y, w)
+RefsAgreeWith(t, a, b) == Len(a) = Len(b) /\ \A k \in 1..Len(a) : SameOut(a[k], b[k], t.ow[k])
+RefsAgree(t, row) ==
+    LET iv == SubSeq(row, 1, Len(t.iw))
+    IN  RefsAgreeWith(t, AsWide(CombRef(t.kind, t.c, iv, t.iw, t.ow), t.ow), WideOfInts(t.kind, t.c, iv, t.iw, t.ow))
+
 RECURSIVE Prod(_)
 Prod(ws) == IF ws = <<>> THEN 1 ELSE Pow2(Head(ws)) * Prod(Tail(ws))
 
@@ -32,7 +39,9 @@ Judge ==
     /\ LET t == Tables[tid]
            bad == {r \in 1..Len(t.rows) : RowBad(t, t.rows[r])}
            nc == Cardinality({r \in 1..Len(t.rows) : Constrained(t, t.rows[r])})
-       IN  /\ IF t.full = 1 /\ Len(t.rows) # Prod(t.iw)
+       IN  /\ IF t.kind \in WideKinds /\ Len(t.rows) <= 300 /\ \E r \in 1..Len(t.rows) : ~RefsAgree(t, t.rows[r])
+              THEN PrintT(ToJson(<<"R", tid, CHOOSE r \in 1..Len(t.rows) : ~RefsAgree(t, t.rows[r])>>)) ELSE TRUE
+           /\ IF t.full = 1 /\ Len(t.rows) # Prod(t.iw)
               THEN PrintT(ToJson(<<"C", tid, Len(t.rows), Prod(t.iw)>>)) ELSE TRUE
            /\ IF bad = {} THEN PrintT(ToJson(<<"J", tid, Len(t.rows), nc>>))
               ELSE LET r == CHOOSE r \in bad : \A q \in bad : r <= q
